@@ -74,8 +74,12 @@ def handle (op : String) (req : Json) : R Json := do
       let th := truthHyp a b truth
       if th && (!positive || pk.lag != truth) then
         throw s!"register_truth contradicted: truthHyp holds at {truth}, peak lag = {pk.lag}"
+      -- the hypothesis of theorem register_zero_background (empty background) at the same translation
+      let zb := zeroBgHyp a b truth
+      if zb && (!positive || pk.lag != truth || model != truth) then
+        throw s!"register_zero_background contradicted: zeroBgHyp holds at {truth}, peak lag = {pk.lag}, register = {model}"
       pure (jObj [("model", jList jInt model), ("lag", jList jInt pk.lag), ("max", jRat pk.value),
-                  ("runner", jOpt jRat pk.runnerUp), ("truthHyp", jBool th)])
+                  ("runner", jOpt jRat pk.runnerUp), ("truthHyp", jBool th), ("zeroBg", jBool zb)])
     | _, _ => throw "empty lag box"
   | "c12.registerLong" =>
     -- long axes: the array twin over the whole lag box, the model at the decisive lags
@@ -83,6 +87,7 @@ def handle (op : String) (req : Json) : R Json := do
     let (b, fb) ← fld req "b" >>= parseBoth
     if a.shape.length ≠ b.shape.length then throw "dimension mismatch"
     let asked ← getList (asList asInt) req "probe"
+    let truth ← getList asInt req "truth"
     let s := padShape a.shape b.shape
     let ls := lags a.shape b.shape
     let table := ls.map (fun l => (l, fastLin fa fb l))
@@ -111,9 +116,13 @@ def handle (op : String) (req : Json) : R Json := do
       let positive := match pk.runnerUp with | some r => decide (r < pk.value) | none => true
       if positive && model != pk.lag then
         throw s!"peak_margin_registerOf_fast contradicted: margin positive, register = {model}, peak lag = {pk.lag}"
+      -- theorem register_zero_background: its hypothesis is linear in the image sizes, so it is evaluated here too
+      let zb := zeroBgHyp a b truth
+      if zb && (!positive || pk.lag != truth || model != truth) then
+        throw s!"register_zero_background contradicted: zeroBgHyp holds at {truth}, peak lag = {pk.lag}, register = {model}"
       pure (jObj [("model", jList jInt model), ("lag", jList jInt pk.lag), ("max", jRat pk.value),
                   ("runner", jOpt jRat pk.runnerUp), ("probed", jNat seen.length),
-                  ("asked", jList valueAt asked), ("truthHyp", Json.null)])
+                  ("asked", jList valueAt asked), ("truthHyp", Json.null), ("zeroBg", jBool zb)])
   | "c12.anchor" =>
     -- every anchor for one `a` shape and a list of `b` shapes
     let a ← getList asInt req "a"
@@ -129,19 +138,29 @@ def handle (op : String) (req : Json) : R Json := do
                   ("spec", jList (jList (fun r => jPair r.2)) rows)])
     | _ => throw "a must be 2-D"
   | "c12.merge" =>
-    -- two windows of one scene merged at their true offsets (scene coordinates)
+    -- register, then merge: the two images themselves (`placed`), the first at the origin, the second at the ESTIMATE
+    -- (`est`: what the mechanism model returned for this pair), against `mergeSpec` of the scene in the first image's
+    -- frame with the second window at the TRUE translation — the two sides of theorem merge_at_estimate
     let sc ← fld req "scene" >>= parseImg
     let ndim := sc.shape.length
     let offA ← getList asInt req "offA"
     let offB ← getList asInt req "offB"
     let shA ← getList asNat req "shapeA"
     let shB ← getList asNat req "shapeB"
-    let scene : Pew.Overlap.Idx → Rat := fun p =>
+    let est ← getList asInt req "est"
+    if offA.length ≠ ndim || offB.length ≠ ndim || shA.length ≠ ndim || shB.length ≠ ndim || est.length ≠ ndim then
+      throw "c12.merge: dimension mismatch"
+    let sceneAbs : Pew.Overlap.Idx → Rat := fun p =>
       if p.all (0 ≤ ·) then sc.get (p.map Int.toNat) else 0
-    let ws : List (List Int × List Nat) := [(offA, shA), (offB, shB)]
-    let arrs := ws.map fun w => window scene w.1 w.2
-    -- one result per requested (mode, fill): the mechanism `overlap false …` and `mergeSpec`, the right-hand side of
-    -- theorem merge_whole (replace and mean modes)
+    -- the scene in the frame of the first image
+    let scene : Pew.Overlap.Idx → Rat := fun p => sceneAbs (List.zipWith (· + ·) p offA)
+    let t := List.zipWith (· - ·) offB offA
+    let zeros := List.replicate ndim (0 : Int)
+    let a : Img := ⟨shA, fun n => scene (n.map Int.ofNat)⟩
+    let b : Img := ⟨shB, fun n => scene (List.zipWith (· + ·) (n.map Int.ofNat) t)⟩
+    let arrs := [placed a zeros, placed b est]
+    let truthWs := [window scene zeros shA, window scene t shB]
+    -- one result per requested (mode, fill) (replace and mean modes: merge_whole / merge_at_estimate)
     let variants ← getList (fun v => do
       let ms ← getStr v "mode"
       let m ← (match ms with
@@ -152,7 +171,7 @@ def handle (op : String) (req : Json) : R Json := do
       pure (m, fill)) req "variants"
     let outs := variants.map fun (mf : Pew.Overlap.Mode × Pew.Overlap.V) =>
       let (sh, mv) := Pew.Overlap.overlap false mf.1 mf.2 ndim arrs
-      let (sh', sv) := mergeSpec scene mf.2 ndim arrs
+      let (sh', sv) := mergeSpec scene mf.2 ndim truthWs
       jObj [("shape", jList jInt sh), ("specShape", jList jInt sh'), ("model", jList (jOpt jRat) mv),
             ("spec", jList (jOpt jRat) sv)]
     pure (jObj [("results", Json.arr outs.toArray)])
